@@ -1,7 +1,9 @@
 """Source of truth for MANIFEST.json (run tools/mkmanifest.py after editing)."""
 
 ENGINES = [
-    dict(name="enumx", path="/verif/vlib/runner.py", serves_properties=["C01","C03","C04","C10","C11","C14","C15","C17"],
+    dict(name="vmp", path="/verif/vlib/vmp.py", serves_properties=["C02", "C05", "C09"],
+         kind_free_text="virtual multiprocessing on a cooperative scheduler: Pool.imap_unordered with explorer-chosen completion order (stateless + explicit-state with consumer fingerprints), Pool.map/Manager.Queue/Process as baton-passing logical threads with partial-order reduction and deadlock verdicts; runs the real library code"),
+    dict(name="enumx", path="/verif/vlib/runner.py", serves_properties=["C01","C02","C03","C04","C10","C11","C12","C13","C14","C15","C17"],
          kind_free_text="bounded-exhaustive enumeration of an explicit finite case space over the real implementation, 16-way fan-out, reference model oracle"),
 ]
 
@@ -10,6 +12,10 @@ CHECKS = [
          technique="bounded-exhaustive enumeration of small rigid worlds (probe pair x fillers x configurations) through the real catalog->tree->linkage->count path against an O(n^2) long-double reference",
          text="Every case of the world/probe/filler/configuration product is created as real catalogs and measured with crosscorrelate and autocorrelate; every count cell (scale, bin, patch i, patch j) of dd/dr/rd/rr and every per-bin per-patch weight sum is compared with a naive pair loop. Because counts are sums over object pairs, a lost or mis-weighted pair has a two-object witness; fillers shape the patch radii that drive pruning.",
          note="Bounds: 2-3 patches, <=16 objects per catalog, 6 (quick) / 16 (thorough) configurations. Cases with a pair within 1e-9 of a scale limit are skipped by rule (none occur with the chosen lattice). Sequential mode; schedules are C05/C06."),
+    dict(id="C02", engine="enumx+vmp", level="model_checking", design_ref="DESIGN.md §5 C02, §3 E3b",
+         technique="bounded-exhaustive input lattice (length x chunk size x format x dtype x columns x buffer) plus exhaustive exploration of the delivery orders of the reader/worker/writer pipeline on a virtual multiprocessing layer",
+         text="Every point of the input lattice is created through the real Catalog.from_* path and the per-patch multisets of stored records (bit patterns) are compared with an independent assignment; in parallel mode every order in which the pool tasks of each chunk deliver to the writer is executed on the real pipeline code.",
+         note="Parallel schedules are decided on vlib/vmp.py (model of multiprocessing, validated by free-running conformance runs); input bound n<=7 (10 thorough), W<=3."),
     dict(id="C03", engine="enumx", level="exploration", design_ref="DESIGN.md §5 C03",
          technique="bounded-exhaustive enumeration of count arrays (fingerprint, single-cell, all 0/1) and sample matrices against an explicit-loop leave-one-out reference",
          text="Every container/shape/content of the stated alphabet is pushed through sample_patch_sum, CorrFunc.sample, RedshiftData.from_corrfuncs, HistData.from_catalog and covariance and compared with a leave-one-out recomputation in patch-index order; fingerprint contents make any permuted, lost or doubled patch visible.",
@@ -22,6 +28,14 @@ CHECKS = [
          technique="bounded-exhaustive enumeration of persisted products (HDF5, YAML, text, metadata, cache) with write/read-back comparison",
          text="Every product of the stated parameter/content alphabets is written and re-read with the real I/O code and compared field by field (own snapshot comparison, the library's ==, downstream sample()).",
          note="Text precision bound derived from the fixed-width format (truncation to the kept decimals). Catalog cache round trips are covered in depth by C02."),
+    dict(id="C12", engine="enumx", level="exploration", design_ref="DESIGN.md §5 C12",
+         technique="bounded-exhaustive enumeration of centre lists (all permutations, empty centres, chunked/reversed input), id columns and generated centres against Vincenty containment and nearest-centre references",
+         text="All permutations of 2-4 centres x layouts x weights x chunkings, id-column and patch_num modes, and all id-set / displaced-centre pairs of catalogs are run through the real creation and measurement code.",
+         note="Between displacement 0 and 'larger than both radii' no demand is made (the statement makes none)."),
+    dict(id="C13", engine="enumx", level="exploration", design_ref="DESIGN.md §5 C13",
+         technique="bounded-exhaustive enumeration of transformations (rotations, row orders, centre permutations, weight factors, catalog splits) with a two-run relational oracle on the real pipeline",
+         text="Every base scenario is measured twice, untransformed and transformed, and amplitudes, samples (permuted accordingly), covariance, n(z) and raw counts are compared.",
+         note="Scenarios with a pair within 1e-9 of a scale limit are skipped by rule and counted; non-finite amplitudes are one class."),
     dict(id="C14", engine="enumx", level="exploration", design_ref="DESIGN.md §5 C14",
          technique="bounded-exhaustive enumeration of special-value and lattice coordinates (all ordered pairs, antipodes) against a long-double Vincenty reference",
          text="All ordered pairs of 221 special-value points, an 8192-point generic lattice with exact and near antipodes, direct unit-vector inputs with signed zeros, a distance alphabet and all point sets of size 1-3 are evaluated and compared with exact spherical geometry within conditioning-derived bounds.",
@@ -34,6 +48,10 @@ CHECKS = [
          technique="bounded-exhaustive enumeration of containers x operations x scalars x index expressions against plain numpy on snapshots",
          text="For every container type/shape/member subset every operator, scalar, integer index, slice and iteration is executed and compared with numpy selections/arithmetics on a snapshot; incompatible operands must raise.",
          note="Empty selections may raise or be empty (not defined by the statement)."),
+    dict(id="C05", engine="vmp", level="model_checking", design_ref="DESIGN.md §5 C05, §3 E3a",
+         technique="stateless and explicit-state exploration of all feasible completion orders of every Pool.imap_unordered call, running the real entry points under a virtual pool",
+         text="For every parallel entry point on fixed caches, every worker count and every pool of the call, all feasible completion orders are executed on the real implementation and the observation is compared bit-wise with the sequential run; plus a joint pass over all pools with <=2 deviations.",
+         note="Virtual pool semantics in DESIGN.md Appendix C; conformance against the real multiprocessing.Pool is part of the check (finish hook). Bounds: <=3 (quick) / 4 (thorough) patches."),
     dict(id="C10", engine="enumx", level="exploration", design_ref="DESIGN.md §5 C10",
          technique="bounded-exhaustive enumeration of edge-valued redshift inputs against an interval-predicate reference model",
          text="Every element of an explicit finite input space (edge arrays x closed side x redshifts on/1ulp around every edge x object layouts over two patches x weights) is run through the real catalog->trees->measurement and histogram paths and compared with the interval predicate; exhaustive within the stated alphabet.",
